@@ -351,4 +351,447 @@ theorem scan_slot_ge (k : Nat) (top : Int) (dist : Nat → Int) (cands : List Na
   rw [List.getElem?_replicate, if_pos (by omega)]
   rfl
 
+/-! ### consequences for `kNearest` -/
+
+theorem mem_kNearest {k : Nat} {dist : Nat → Int} {cands : List Nat} {s : Slot}
+    (hs : s ∈ kNearest k dist cands) : s.2 ∈ cands ∧ s.1 = dist s.2 :=
+  mem_stableSort.mp (List.mem_of_mem_take hs)
+
+theorem sorted_kNearest (k : Nat) (dist : Nat → Int) (cands : List Nat) :
+    ((kNearest k dist cands).map (·.1)).Pairwise (· ≤ ·) := by
+  rw [List.pairwise_map]
+  exact List.Pairwise.sublist (List.take_sublist _ _) (sorted_stableSort dist cands)
+
+theorem nodup_kNearest (k : Nat) (dist : Nat → Int) (cands : List Nat) (hnd : cands.Nodup) :
+    ((kNearest k dist cands).map (·.2)).Nodup := by
+  have hp : ((stableSort dist cands).map (·.2)).Perm cands := by
+    have := (stableSort_perm dist cands).map (·.2)
+    simpa [List.map_map, Function.comp_def] using this
+  have hS : ((stableSort dist cands).map (·.2)).Nodup := hp.nodup_iff.mpr hnd
+  exact List.Nodup.sublist (List.Sublist.map _ (List.take_sublist _ _)) hS
+
+theorem kNearest_smallest (k : Nat) (dist : Nat → Int) (cands : List Nat) (j : Nat) (hj : j ∈ cands)
+    (hnot : j ∉ (kNearest k dist cands).map (·.2)) :
+    ∀ s ∈ kNearest k dist cands, s.1 ≤ dist j := by
+  intro s hs
+  have hmem : (dist j, j) ∈ stableSort dist cands := mem_stableSort.mpr ⟨hj, rfl⟩
+  rw [← List.take_append_drop k (stableSort dist cands)] at hmem
+  have hsorted := sorted_stableSort dist cands
+  rw [← List.take_append_drop k (stableSort dist cands)] at hsorted
+  rcases List.mem_append.mp hmem with h | h
+  · exact absurd (List.mem_map.mpr ⟨(dist j, j), h, rfl⟩) hnot
+  · exact (List.pairwise_append.mp hsorted).2.2 s hs _ h
+
+/-! ### running maxima -/
+
+theorem ite_gt_max (x r : Int) : (if x > r then x else r) = max r x := by
+  split <;> omega
+
+theorem foldl_max_comm (l : List Int) : ∀ (a x : Int), l.foldl max (max a x) = max (l.foldl max a) x := by
+  induction l with
+  | nil => intro a x; rfl
+  | cons y l ih =>
+    intro a x
+    simp only [List.foldl_cons]
+    have : max (max a x) y = max (max a y) x := by omega
+    rw [this, ih]
+
+theorem foldl_max_ge (l : List Int) : ∀ a : Int, a ≤ l.foldl max a := by
+  induction l with
+  | nil => intro a; exact Int.le_refl a
+  | cons y l ih =>
+    intro a
+    have := ih (max a y)
+    simp only [List.foldl_cons]
+    omega
+
+theorem foldl_max_concat (l : List Int) (a x : Int) : (l ++ [x]).foldl max a = max (l.foldl max a) x := by
+  simp [List.foldl_append]
+
+theorem foldl_max_mem_le (l : List Int) : ∀ a : Int, ∀ x ∈ l, x ≤ l.foldl max a := by
+  induction l with
+  | nil => intro a x hx; cases hx
+  | cons y l ih =>
+    intro a x hx
+    simp only [List.foldl_cons]
+    rcases List.mem_cons.mp hx with rfl | hx
+    · have := foldl_max_ge l (max a x); omega
+    · exact ih _ x hx
+
+theorem foldl_max_attained (l : List Int) : ∀ a : Int, l.foldl max a = a ∨ l.foldl max a ∈ l := by
+  induction l with
+  | nil => intro a; exact Or.inl rfl
+  | cons y l ih =>
+    intro a
+    simp only [List.foldl_cons]
+    rcases ih (max a y) with h | h
+    · rw [h]
+      by_cases hy : a ≤ y
+      · right; rw [Int.max_eq_right hy]; exact List.mem_cons_self
+      · left; omega
+    · right; exact List.mem_cons_of_mem _ h
+
+/-! ### array reads -/
+
+theorem getD_set_eq {α : Type} (xs : Array α) (i : Nat) (v d : α) (h : i < xs.size) :
+    (xs.setIfInBounds i v).getD i d = v := by
+  simp [Array.getD_eq_getD_getElem?, h]
+
+theorem getD_set_ne {α : Type} (xs : Array α) (i j : Nat) (v d : α) (h : i ≠ j) :
+    (xs.setIfInBounds i v).getD j d = xs.getD j d := by
+  simp [Array.getD_eq_getD_getElem?, h]
+
+/-! ### `arcSlot` -/
+
+/-- valid slots among the first `m`. -/
+def slotsUpTo (top : Int) (buf : Array Slot) (m : Nat) : List Slot :=
+  (buf.toList.take m).filter (fun s => s.1 ≠ top)
+
+theorem slotsUpTo_eq_validSlots (top : Int) (buf : Array Slot) (k : Nat) :
+    slotsUpTo top buf k = validSlots k top buf := rfl
+
+theorem slotsUpTo_zero (top : Int) (buf : Array Slot) : slotsUpTo top buf 0 = [] := by
+  simp [slotsUpTo]
+
+theorem slotsUpTo_succ_pos (top : Int) (buf : Array Slot) (m : Nat) (hm : m < buf.size)
+    (h : (buf.getD m (0, 0)).1 ≠ top) :
+    slotsUpTo top buf (m + 1) = slotsUpTo top buf m ++ [buf.getD m (0, 0)] := by
+  have hg : buf.getD m (0, 0) = buf[m] := by simp [Array.getD_eq_getD_getElem?, hm]
+  rw [hg] at h ⊢
+  simp [slotsUpTo, List.take_add_one, hm, List.filter_append, h]
+
+theorem slotsUpTo_succ_neg (top : Int) (buf : Array Slot) (m : Nat) (hm : m < buf.size)
+    (h : ¬ (buf.getD m (0, 0)).1 ≠ top) :
+    slotsUpTo top buf (m + 1) = slotsUpTo top buf m := by
+  have hg : buf.getD m (0, 0) = buf[m] := by simp [Array.getD_eq_getD_getElem?, hm]
+  rw [hg] at h
+  simp only [ne_eq, Decidable.not_not] at h
+  simp [slotsUpTo, List.take_add_one, hm, List.filter_append, h]
+
+theorem arcSlot_neg (top : Int) (i : Nat) (buf : Array Slot) (a : ArcAcc) (l : Nat)
+    (h : ¬ (buf.getD l (0, 0)).1 ≠ top) : arcSlot top i buf a l = a := by
+  unfold arcSlot
+  simp only []
+  rw [if_neg h]
+
+/-- effect of one valid slot. -/
+structure ArcStep (i : Nat) (s : Slot) (l : Nat) (a a' : ArcAcc) : Prop where
+  n : a'.g.n = a.g.n
+  nplat : a'.g.nplat = a.g.nplat
+  adj_size : a'.g.adj.size = a.g.adj.size
+  radius_size : a'.g.radius.size = a.g.radius.size
+  maxd_size : a'.maxd.size = a.maxd.size
+  adj_i : a'.g.adj.getD i [] = s.2 :: a.g.adj.getD i []
+  adj_ne : ∀ i', i' ≠ i → a'.g.adj.getD i' [] = a.g.adj.getD i' []
+  radius_i : a'.g.radius.getD i 0 = max (a.g.radius.getD i 0) s.1
+  radius_ne : ∀ i', i' ≠ i → a'.g.radius.getD i' 0 = a.g.radius.getD i' 0
+  bound : a'.g.bound = max a.g.bound s.1
+  maxd_l : l < a.maxd.size → a'.maxd.getD l 0 = max (a.maxd.getD l 0) s.1
+  maxd_ne : ∀ l', l' ≠ l → a'.maxd.getD l' 0 = a.maxd.getD l' 0
+
+theorem arcSlot_pos (top : Int) (i : Nat) (buf : Array Slot) (a : ArcAcc) (l : Nat)
+    (h : (buf.getD l (0, 0)).1 ≠ top) (hi1 : i < a.g.adj.size) (hi2 : i < a.g.radius.size) :
+    ArcStep i (buf.getD l (0, 0)) l a (arcSlot top i buf a l) := by
+  unfold arcSlot
+  simp only [ite_gt_max]
+  rw [if_pos h]
+  constructor
+  · rfl
+  · rfl
+  · simp
+  · simp
+  · simp
+  · exact getD_set_eq _ _ _ _ hi1
+  · intro i' hi'; exact getD_set_ne _ _ _ _ _ (Ne.symm hi')
+  · exact getD_set_eq _ _ _ _ hi2
+  · intro i' hi'; exact getD_set_ne _ _ _ _ _ (Ne.symm hi')
+  · rfl
+  · intro hl; exact getD_set_eq _ _ _ _ hl
+  · intro l' hl'; exact getD_set_ne _ _ _ _ _ (Ne.symm hl')
+
+/-- effect of the slot loop `for l in range(m-1, -1, -1)` of node `i`. -/
+structure ArcFold (top : Int) (i : Nat) (buf : Array Slot) (m : Nat) (a r : ArcAcc) : Prop where
+  n : r.g.n = a.g.n
+  nplat : r.g.nplat = a.g.nplat
+  adj_size : r.g.adj.size = a.g.adj.size
+  radius_size : r.g.radius.size = a.g.radius.size
+  maxd_size : r.maxd.size = a.maxd.size
+  adj_i : r.g.adj.getD i [] = (slotsUpTo top buf m).map (·.2) ++ a.g.adj.getD i []
+  adj_ne : ∀ i', i' ≠ i → r.g.adj.getD i' [] = a.g.adj.getD i' []
+  radius_i : r.g.radius.getD i 0 = ((slotsUpTo top buf m).map (·.1)).foldl max (a.g.radius.getD i 0)
+  radius_ne : ∀ i', i' ≠ i → r.g.radius.getD i' 0 = a.g.radius.getD i' 0
+  bound : r.g.bound = ((slotsUpTo top buf m).map (·.1)).foldl max a.g.bound
+  maxd : ∀ l, l < a.maxd.size → r.maxd.getD l 0 =
+    if l < m ∧ (buf.getD l (0, 0)).1 ≠ top then max (a.maxd.getD l 0) (buf.getD l (0, 0)).1
+    else a.maxd.getD l 0
+
+theorem arcFold (top : Int) (i : Nat) (buf : Array Slot) (m : Nat) (hm : m ≤ buf.size) :
+    ∀ a : ArcAcc, i < a.g.adj.size → i < a.g.radius.size →
+      ArcFold top i buf m a ((List.range m).reverse.foldl (arcSlot top i buf) a) := by
+  induction m with
+  | zero =>
+    intro a _ _
+    simp only [List.range_zero, List.reverse_nil, List.foldl_nil]
+    constructor <;> simp [slotsUpTo_zero]
+  | succ m ih =>
+    intro a hi1 hi2
+    have hm' : m < buf.size := by omega
+    rw [List.range_succ, List.reverse_append, List.reverse_singleton, List.singleton_append,
+      List.foldl_cons]
+    by_cases h : (buf.getD m (0, 0)).1 ≠ top
+    · have st := arcSlot_pos top i buf a m h hi1 hi2
+      generalize arcSlot top i buf a m = a' at st
+      have r := ih (by omega) a' (by rw [st.adj_size]; exact hi1) (by rw [st.radius_size]; exact hi2)
+      generalize (List.range m).reverse.foldl (arcSlot top i buf) a' = res at r
+      have hsl := slotsUpTo_succ_pos top buf m hm' h
+      constructor
+      · rw [r.n, st.n]
+      · rw [r.nplat, st.nplat]
+      · rw [r.adj_size, st.adj_size]
+      · rw [r.radius_size, st.radius_size]
+      · rw [r.maxd_size, st.maxd_size]
+      · rw [hsl, r.adj_i, st.adj_i]; simp
+      · intro i' hi'; rw [r.adj_ne i' hi', st.adj_ne i' hi']
+      · rw [hsl, r.radius_i, st.radius_i, foldl_max_comm, List.map_append, List.map_singleton,
+          foldl_max_concat]
+      · intro i' hi'; rw [r.radius_ne i' hi', st.radius_ne i' hi']
+      · rw [hsl, r.bound, st.bound, foldl_max_comm, List.map_append, List.map_singleton, foldl_max_concat]
+      · intro l hl
+        rw [r.maxd l (by rw [st.maxd_size]; exact hl)]
+        by_cases hlm : l = m
+        · subst hlm
+          rw [if_neg (by omega), if_pos ⟨by omega, h⟩, st.maxd_l hl]
+        · rw [st.maxd_ne l hlm]
+          by_cases hc : l < m ∧ (buf.getD l (0, 0)).1 ≠ top
+          · rw [if_pos hc, if_pos ⟨by omega, hc.2⟩]
+          · rw [if_neg hc, if_neg (by intro hc'; exact hc ⟨by omega, hc'.2⟩)]
+    · rw [arcSlot_neg top i buf a m h]
+      have hsl := slotsUpTo_succ_neg top buf m hm' h
+      have r := ih (by omega) a hi1 hi2
+      generalize (List.range m).reverse.foldl (arcSlot top i buf) a = res at r
+      refine ⟨r.n, r.nplat, r.adj_size, r.radius_size, r.maxd_size, by rw [hsl]; exact r.adj_i,
+        r.adj_ne, by rw [hsl]; exact r.radius_i, r.radius_ne, by rw [hsl]; exact r.bound, ?_⟩
+      intro l hl
+      rw [r.maxd l hl]
+      by_cases hc : l < m ∧ (buf.getD l (0, 0)).1 ≠ top
+      · rw [if_pos hc, if_pos ⟨by omega, hc.2⟩]
+      · rw [if_neg hc, if_neg]
+        intro hc'
+        by_cases hlm : l = m
+        · subst hlm; exact h hc'.2
+        · exact hc ⟨by omega, hc'.2⟩
+
+/-! ### `arcNode` -/
+
+/-- the `k` nearest other samples of node `i` among `0..n-1`, in reference order. -/
+def nnOf (w : Nat → Nat → Int) (k n i : Nat) : List Slot :=
+  kNearest k (w i) ((List.range n).filter (· ≠ i))
+
+theorem getD_map_fst (V : List Slot) (l : Nat) (hl : l < V.length) :
+    (V.map (·.1)).getD l 0 = (V.getD l (0, 0)).1 := by
+  simp [List.getD_eq_getElem?_getD, hl]
+
+theorem getD_map_fst_ge (V : List Slot) (l : Nat) (hl : V.length ≤ l) :
+    (V.map (·.1)).getD l 0 = 0 := by
+  simp [List.getD_eq_getElem?_getD, hl]
+
+/-- effect of processing node `i`. -/
+structure ArcNode (w : Nat → Nat → Int) (k i : Nat) (a r : ArcAcc) : Prop where
+  n : r.g.n = a.g.n
+  adj_size : r.g.adj.size = a.g.adj.size
+  radius_size : r.g.radius.size = a.g.radius.size
+  nplat_size : r.g.nplat.size = a.g.nplat.size
+  maxd_size : r.maxd.size = a.maxd.size
+  adj_i : r.g.adj.getD i [] = (nnOf w k a.g.n i).map (·.2) ++ a.g.adj.getD i []
+  adj_ne : ∀ i', i' ≠ i → r.g.adj.getD i' [] = a.g.adj.getD i' []
+  radius_i : r.g.radius.getD i 0 = ((nnOf w k a.g.n i).map (·.1)).foldl max 0
+  radius_ne : ∀ i', i' ≠ i → r.g.radius.getD i' 0 = a.g.radius.getD i' 0
+  nplat_i : r.g.nplat.getD i 0 = 0
+  nplat_ne : ∀ i', i' ≠ i → r.g.nplat.getD i' 0 = a.g.nplat.getD i' 0
+  bound : r.g.bound = ((nnOf w k a.g.n i).map (·.1)).foldl max a.g.bound
+  maxd : ∀ l, l < k → r.maxd.getD l 0 =
+    if l < (nnOf w k a.g.n i).length then max (a.maxd.getD l 0) (((nnOf w k a.g.n i).map (·.1)).getD l 0)
+    else a.maxd.getD l 0
+
+theorem arcNode_spec (w : Nat → Nat → Int) (top : Int) (k : Nat) (hw : ∀ i j, w i j < top)
+    (a : ArcAcc) (i : Nat) (h1 : i < a.g.adj.size) (h2 : i < a.g.radius.size)
+    (h3 : i < a.g.nplat.size) (h4 : a.maxd.size = k) :
+    ArcNode w k i a (arcNode w top k a i) := by
+  unfold arcNode
+  simp only []
+  have hinv := scan_inv k top (w i) ((List.range a.g.n).filter (· ≠ i)) (fun j _ => hw i j)
+  have hV : slotsUpTo top (scan k top (w i) ((List.range a.g.n).filter (· ≠ i))) k = nnOf w k a.g.n i :=
+    validSlots_scan k top (w i) _ (fun j _ => hw i j)
+  have hlt := scan_slot_lt k top (w i) ((List.range a.g.n).filter (· ≠ i)) (fun j _ => hw i j)
+  have hge := scan_slot_ge k top (w i) ((List.range a.g.n).filter (· ≠ i)) (fun j _ => hw i j)
+  have r := arcFold top i (scan k top (w i) ((List.range a.g.n).filter (· ≠ i))) k (by omega)
+    { a with g := { a.g with radius := a.g.radius.setIfInBounds i 0, nplat := a.g.nplat.setIfInBounds i 0 } }
+    h1 (by simpa using h2)
+  generalize List.foldl _ _ (List.range k).reverse = res at r
+  rw [show kNearest k (w i) ((List.range a.g.n).filter (· ≠ i)) = nnOf w k a.g.n i from rfl] at hlt hge
+  generalize hVn : nnOf w k a.g.n i = V at *
+  generalize scan k top (w i) ((List.range a.g.n).filter (· ≠ i)) = buf at *
+  constructor
+  · exact r.n
+  · exact r.adj_size
+  · rw [r.radius_size]; simp
+  · rw [r.nplat]; simp
+  · exact r.maxd_size
+  · rw [hVn, ← hV]; exact r.adj_i
+  · exact r.adj_ne
+  · rw [hVn, ← hV, r.radius_i]; simp only []; rw [getD_set_eq _ _ _ _ h2]
+  · intro i' hi'; rw [r.radius_ne i' hi']; exact getD_set_ne _ _ _ _ _ (Ne.symm hi')
+  · rw [r.nplat]; exact getD_set_eq _ _ _ _ h3
+  · intro i' hi'; rw [r.nplat]; exact getD_set_ne _ _ _ _ _ (Ne.symm hi')
+  · rw [hVn, ← hV]; exact r.bound
+  · intro l hl
+    rw [hVn, r.maxd l (by simpa [h4] using hl)]
+    simp only []
+    by_cases hlV : l < V.length
+    · have := hlt l hlV (0, 0)
+      rw [if_pos ⟨hl, this.2⟩, if_pos hlV, this.1, getD_map_fst V l hlV]
+    · have := hge l hl (by omega) (0, 0)
+      rw [if_neg (by intro hc; exact hc.2 this), if_neg hlV]
+
+/-! ### `createArcs` -/
+
+/-- state after the nodes `0..m-1` have been processed, starting from subgraph `g`. -/
+structure ArcsInv (w : Nat → Nat → Int) (k : Nat) (g : KnnSub) (m : Nat) (a : ArcAcc) : Prop where
+  n : a.g.n = g.n
+  adj_size : a.g.adj.size = g.adj.size
+  radius_size : a.g.radius.size = g.radius.size
+  nplat_size : a.g.nplat.size = g.nplat.size
+  maxd_size : a.maxd.size = k
+  adj : ∀ i, a.g.adj.getD i [] =
+    if i < m then (nnOf w k g.n i).map (·.2) ++ g.adj.getD i [] else g.adj.getD i []
+  radius : ∀ i, a.g.radius.getD i 0 =
+    if i < m then ((nnOf w k g.n i).map (·.1)).foldl max 0 else g.radius.getD i 0
+  nplat : ∀ i, a.g.nplat.getD i 0 = if i < m then 0 else g.nplat.getD i 0
+  bound : a.g.bound = ((List.range m).flatMap (fun i => (nnOf w k g.n i).map (·.1))).foldl max g.bound
+  maxd : ∀ l, l < k → a.maxd.getD l 0 =
+    ((List.range m).map (fun i => ((nnOf w k g.n i).map (·.1)).getD l 0)).foldl max 0
+
+theorem arcs_inv (w : Nat → Nat → Int) (top : Int) (k : Nat) (hw : ∀ i j, w i j < top) (g : KnnSub)
+    (h1 : g.adj.size = g.n) (h2 : g.radius.size = g.n) (h3 : g.nplat.size = g.n) :
+    ∀ m, m ≤ g.n →
+      ArcsInv w k g m ((List.range m).foldl (arcNode w top k) { g := g, maxd := Array.replicate k 0 }) := by
+  intro m
+  induction m with
+  | zero =>
+    intro _
+    simp only [List.range_zero, List.foldl_nil]
+    constructor <;> simp [Array.getD_eq_getD_getElem?]
+    intro l hl; simp [hl]
+  | succ m ih =>
+    intro hm
+    have ih := ih (by omega)
+    rw [List.range_succ, List.foldl_append, List.foldl_cons, List.foldl_nil]
+    generalize (List.range m).foldl (arcNode w top k) { g := g, maxd := Array.replicate k 0 } = a at ih
+    have st := arcNode_spec w top k hw a m (by rw [ih.adj_size]; omega) (by rw [ih.radius_size]; omega)
+      (by rw [ih.nplat_size]; omega) ih.maxd_size
+    generalize arcNode w top k a m = r at st
+    have hn := ih.n
+    constructor
+    · rw [st.n, ih.n]
+    · rw [st.adj_size, ih.adj_size]
+    · rw [st.radius_size, ih.radius_size]
+    · rw [st.nplat_size, ih.nplat_size]
+    · rw [st.maxd_size, ih.maxd_size]
+    · intro i
+      by_cases him : i = m
+      · subst him
+        rw [st.adj_i, ih.adj, if_neg (by omega), if_pos (by omega), hn]
+      · rw [st.adj_ne i him, ih.adj]
+        by_cases hlt : i < m
+        · rw [if_pos hlt, if_pos (by omega)]
+        · rw [if_neg hlt, if_neg (by omega)]
+    · intro i
+      by_cases him : i = m
+      · subst him
+        rw [st.radius_i, if_pos (by omega), hn]
+      · rw [st.radius_ne i him, ih.radius]
+        by_cases hlt : i < m
+        · rw [if_pos hlt, if_pos (by omega)]
+        · rw [if_neg hlt, if_neg (by omega)]
+    · intro i
+      by_cases him : i = m
+      · subst him
+        rw [st.nplat_i, if_pos (by omega)]
+      · rw [st.nplat_ne i him, ih.nplat]
+        by_cases hlt : i < m
+        · rw [if_pos hlt, if_pos (by omega)]
+        · rw [if_neg hlt, if_neg (by omega)]
+    · rw [st.bound, ih.bound, hn, List.range_succ, List.flatMap_append, List.foldl_append]
+      simp
+    · intro l hl
+      rw [st.maxd l hl, ih.maxd l hl, hn, List.range_succ, List.map_append, List.map_singleton, foldl_max_concat]
+      split
+      · rfl
+      · rename_i hlen
+        rw [getD_map_fst_ge _ _ (by omega)]
+        have := foldl_max_ge ((List.range m).map (fun i => ((nnOf w k g.n i).map (·.1)).getD l 0)) 0
+        omega
+
+/-! ### `knnArgmax` -/
+
+/-- the fold of `knnArgmax` from an arbitrary accumulator: either nothing beats the accumulator,
+or the result is the FIRST slot attaining the maximum value, which beats the accumulator. -/
+theorem knnArgmax_fold (cost : Nat → Int) (density : Int) :
+    ∀ (slots : List Slot) (acc : Option Nat × Int),
+      (slots.foldl (fun (acc : Option Nat × Int) s =>
+          let t := min (cost s.2) density
+          if t > acc.2 then (some s.2, t) else acc) acc = acc ∧
+        ∀ t ∈ slots, min (cost t.2) density ≤ acc.2) ∨
+      (∃ pre s post, slots = pre ++ s :: post ∧
+        slots.foldl (fun (acc : Option Nat × Int) s =>
+          let t := min (cost s.2) density
+          if t > acc.2 then (some s.2, t) else acc) acc = (some s.2, min (cost s.2) density) ∧
+        acc.2 < min (cost s.2) density ∧
+        (∀ t ∈ slots, min (cost t.2) density ≤ min (cost s.2) density) ∧
+        (∀ t ∈ pre, min (cost t.2) density < min (cost s.2) density)) := by
+  intro slots
+  induction slots with
+  | nil => intro acc; left; exact ⟨rfl, fun t ht => by cases ht⟩
+  | cons x rest ih =>
+    intro acc
+    simp only [List.foldl_cons]
+    by_cases hx : min (cost x.2) density > acc.2
+    · rw [if_pos hx]
+      rcases ih (some x.2, min (cost x.2) density) with ⟨h1, h2⟩ | ⟨pre, s, post, h1, h2, h3, h4, h5⟩
+      · right
+        refine ⟨[], x, rest, rfl, h1, hx, ?_, fun t ht => by cases ht⟩
+        intro t ht
+        rcases List.mem_cons.mp ht with rfl | ht
+        · exact Int.le_refl _
+        · exact h2 t ht
+      · right
+        refine ⟨x :: pre, s, post, by rw [h1]; rfl, h2, ?_, ?_, ?_⟩
+        · simp only at h3; omega
+        · intro t ht
+          rcases List.mem_cons.mp ht with rfl | ht
+          · simp only at h3; omega
+          · exact h4 t ht
+        · intro t ht
+          rcases List.mem_cons.mp ht with rfl | ht
+          · exact h3
+          · exact h5 t ht
+    · rw [if_neg hx]
+      rcases ih acc with ⟨h1, h2⟩ | ⟨pre, s, post, h1, h2, h3, h4, h5⟩
+      · left
+        refine ⟨h1, ?_⟩
+        intro t ht
+        rcases List.mem_cons.mp ht with rfl | ht
+        · omega
+        · exact h2 t ht
+      · right
+        refine ⟨x :: pre, s, post, by rw [h1]; rfl, h2, h3, ?_, ?_⟩
+        · intro t ht
+          rcases List.mem_cons.mp ht with rfl | ht
+          · omega
+          · exact h4 t ht
+        · intro t ht
+          rcases List.mem_cons.mp ht with rfl | ht
+          · omega
+          · exact h5 t ht
+
 end Opf
